@@ -1,6 +1,7 @@
 CONSTANTS
   MaxCalls = 6
   HeomResets = TRUE
+  FreeModeLocal = TRUE
   RestoreOnError = TRUE
   NefRecomputes = TRUE
   NrefPersists = TRUE
